@@ -65,7 +65,7 @@ theorem main_tie (ks : List Thread) (hks : isOrder ks = true) (drift : Nat) (phc
       [.int .u32 drift, phcValue phc]
     = .ok .unit .unit (startEvents ks phc drift nP nW ++
         (mainEvs k pre stop ks ok1 ok2 nP nW okP okW).map MainEv.value) := by
-  simp [rs_eval, rs_code, dispatchValue, allChans, handleValue, h0, h1, h2, h3, h4, h5]
+  simp [rs_eval, rs_code, dispatchValue, allChans, handleValue, h0, h1, h2, h3, h4, h5, ↓bcastCall_wrap]
   rw [Nat.add_right_comm F k]
   rw [evalWhile_skip (d := 30) (k := k) (P := fun i => i)
     (E := fun i => (List.range i).map fun j => evRecv (Value.enumv "ChannelId::MainThread" []) (Recv.ok (pre j)).value)]
